@@ -5,6 +5,7 @@ import Gk.Basic
 import Gk.Query
 import Gk.Repo
 import Gk.Mon
+import Gk.Proofs.ByCreated
 namespace Gk
 
 /-! ## Shared definitions -/
@@ -584,7 +585,7 @@ theorem step_out_tasks {fl : Flags} {r : Repo} {now : Time} {op : Op} {ts : List
   | find q o l =>
     simp only [Repo.step, Out.tasks.injEq] at h
     subst h
-    exact fun t ht => mem_findLoop ht
+    exact fun t ht => mem_byCreated.mp (mem_findLoop ht)
   | add id p => simp only [Repo.step] at h; split at h <;> cases h
   | get id => simp only [Repo.step] at h; split at h <;> cases h
   | update id p =>
